@@ -14,6 +14,13 @@ Theorem C14_option_roundtrip : forall piv kidctx kid,
 Proof. exact osc_opt_decode_encode. Qed.
 Print Assumptions C14_option_roundtrip.
 
+(* the decoder accepts only canonical encodings: a byte string that decodes IS the encoding of
+   what it decodes to, so two different option values never carry the same content *)
+Theorem C14_option_canonical : forall v piv kc kid,
+  wfb v -> osc_opt_decode v = Some (piv, kc, kid) -> osc_opt_encode piv kc kid = v.
+Proof. exact osc_opt_encode_decode. Qed.
+Print Assumptions C14_option_canonical.
+
 (* ---- class E / class U split followed by the recipient's merge restores the option list, for
    every ascending option list and every way of classing option numbers ---- *)
 Theorem C14_split_merge : forall (P : Z -> bool) (l : list opt),
